@@ -1314,6 +1314,7 @@ func runC04(c *core.Ctx) core.Meta {
 	checkTableWidths(c, t)
 	checkVOP3bMembership(c, t)
 	checkFieldCoverage(c, core.NewLocalProv(c))
+	checkSRegOperandRange(c)
 
 	return core.Meta{Level: "other",
 		Explanation: "Totality and determinism of decoding decided from tables and code shape of amd/insts: the 18-row format table (mask/encoding/overlap/order/opcode field), the ~1000-row decode table evaluated from constant expressions incl. the VOP1→VOP3a copy loop (duplicates, field width, VOP3b routing, dispatch coverage), every getOperand call site against the computed set of defined operand codes with an interval analysis of the code argument, buffer-access bounds per format, size accounting, and error handling at the three callers.",
